@@ -273,6 +273,31 @@ func (e *explorer) checkState(s *state) bool {
 				ok = false
 			}
 		}
+		// a predicate may look at the lexer it is called from, and may panic (the caller recovering): neither
+		// sees nor leaves the lexer anywhere but where it is
+		{
+			c := pl
+			during := -1
+			c.PeekAny(func(t lexer.Token) bool {
+				if during < 0 {
+					during = int(c.RawCursor())*1000 + idxOf(e.all, c.RawPeek())
+				}
+				return false
+			})
+			if during >= 0 && during != s.r*1000+s.r {
+				e.fail(s, " PeekAny(predicate that reads the lexer)", "PeekAny-mutates", fmt.Sprintf("raw cursor %d during the scan", s.r), fmt.Sprintf("cursor*1000+rawpeek = %d", during))
+				ok = false
+			}
+			c2 := pl
+			func() {
+				defer func() { _ = recover() }()
+				c2.PeekAny(func(t lexer.Token) bool { panic("predicate gives up") })
+			}()
+			if observe(&c2, e.all) != observe(&pl, e.all) || int(c2.RawCursor()) != s.r {
+				e.fail(s, " PeekAny(panicking predicate)", "PeekAny-mutates", "", "")
+				ok = false
+			}
+		}
 		for i := 0; i <= m.n+1; i++ {
 			for j := i; j <= m.n+1; j++ {
 				rg := pl.Range(lexer.RawCursor(i), lexer.RawCursor(j))
@@ -392,6 +417,12 @@ func (e *explorer) run() {
 	}
 	var pl *lexer.PeekingLexer
 	var err error
+	// another lexer, upgraded just before with a different set (both elidable types): nothing carries over;
+	// and the list of this one names its first type twice, as composed option lists do
+	_, _ = lexer.Upgrade(&sliceLexer{toks: toks}, typeNames['e'], typeNames['f'])
+	if len(el) > 0 {
+		el = append(el, el[0])
+	}
 	pan, msg := hx.Guard(func() { pl, err = lexer.Upgrade(&sliceLexer{toks: toks}, el...) })
 	// the caller owns the slice it passed and re-uses it: the lexer's elision set must not follow
 	for i := range el {
